@@ -1,2 +1,185 @@
+/* pt <reg> <op> <args...> : vnaproperty through the public API; descriptors and values travel as hex bytes */
 #include "vh.h"
-int vh_prop(void) { return -1; }
+
+#define NREG 4
+static vnaproperty_t *reg[NREG];
+
+/* canonical walk of a subtree through the public API only */
+static void walk(const vnaproperty_t *node)
+{
+    int t;
+
+    if (node == NULL) {
+	vh_out("N");
+	return;
+    }
+    errno = 0;
+    t = vnaproperty_type(node, ".");
+    switch (t) {
+    case 's':
+	{
+	    const char *v = vnaproperty_get(node, ".");
+	    vh_out("S");
+	    if (v == NULL) vh_out("?");
+	    else for (; *v; ++v) vh_out("%02x", (unsigned char)*v);
+	}
+	return;
+    case 'm':
+	{
+	    const char **keys = vnaproperty_keys(node, "{}");
+	    int n = vnaproperty_count(node, ".");
+	    int k = 0;
+	    vh_out("M%d{", n);
+	    if (keys == NULL) {
+		vh_out("?}");
+		return;
+	    }
+	    for (const char **kp = keys; *kp != NULL; ++kp, ++k) {
+		char *q = vnaproperty_quote_key(*kp);
+		vnaproperty_t *child;
+		if (k) vh_out(",");
+		for (const char *c = *kp; *c; ++c) vh_out("%02x", (unsigned char)*c);
+		vh_out(":");
+		if (q == NULL) { vh_out("?"); continue; }
+		errno = 0;
+		child = vnaproperty_get_subtree(node, "%s", q);
+		if (child == NULL && errno != 0) vh_out("?%s", vh_errclass(errno));
+		else walk(child);
+		free(q);
+	    }
+	    free(keys);
+	    vh_out("}");
+	}
+	return;
+    case 'l':
+	{
+	    int n = vnaproperty_count(node, "[]");
+	    vh_out("L%d[", n);
+	    for (int i = 0; i < n; ++i) {
+		vnaproperty_t *child;
+		if (i) vh_out(",");
+		errno = 0;
+		child = vnaproperty_get_subtree(node, "[%d]", i);
+		if (child == NULL && errno != 0) vh_out("?%s", vh_errclass(errno));
+		else walk(child);
+	    }
+	    vh_out("]");
+	}
+	return;
+    default:
+	vh_out("?type%d", t);
+    }
+}
+
+static void res_int(int rc)
+{
+    if (rc == -1) vh_out("fail %s", vh_errclass(errno));
+    else vh_out("ok %d", rc);
+}
+
+int vh_prop(void)
+{
+    int r;
+    const char *op;
+    char *d = NULL;
+
+    if (vh_ntok < 3)
+	return -1;
+    r = (int)vh_parse_long(vh_tok[1]);
+    op = vh_tok[2];
+    if (r < 0 || r >= NREG)
+	return -1;
+    vh_cb_reset();
+    if (vh_ntok >= 4)
+	d = vh_parse_hexbytes(vh_tok[3]);
+    errno = 0;
+    if (strcmp(op, "type") == 0 && d) {
+	int t;
+	LIB(t = vnaproperty_type(reg[r], "%s", d));
+	if (t == -1) vh_out("fail %s", vh_errclass(errno)); else vh_out("ok %c", t);
+    } else if (strcmp(op, "count") == 0 && d) {
+	int n;
+	LIB(n = vnaproperty_count(reg[r], "%s", d));
+	res_int(n);
+    } else if (strcmp(op, "keys") == 0 && d) {
+	const char **k;
+	LIB(k = vnaproperty_keys(reg[r], "%s", d));
+	if (k == NULL) vh_out("fail %s", vh_errclass(errno));
+	else {
+	    vh_out("ok");
+	    for (const char **kp = k; *kp; ++kp) vh_out_hexbytes(*kp);
+	    LIB(free(k));
+	}
+    } else if (strcmp(op, "get") == 0 && d) {
+	const char *v;
+	LIB(v = vnaproperty_get(reg[r], "%s", d));
+	if (v == NULL) vh_out("fail %s", vh_errclass(errno));
+	else { vh_out("ok"); vh_out_hexbytes(v); }
+    } else if (strcmp(op, "set") == 0 && d) {
+	int rc;
+	LIB(rc = vnaproperty_set(&reg[r], "%s", d));
+	res_int(rc);
+    } else if (strcmp(op, "delete") == 0 && d) {
+	int rc;
+	LIB(rc = vnaproperty_delete(&reg[r], "%s", d));
+	res_int(rc);
+    } else if (strcmp(op, "get_subtree") == 0 && d) {
+	vnaproperty_t *s;
+	LIB(s = vnaproperty_get_subtree(reg[r], "%s", d));
+	if (s == NULL && errno != 0) vh_out("fail %s", vh_errclass(errno));
+	else { vh_out("ok "); LIB(walk(s)); }
+    } else if (strcmp(op, "set_subtree") == 0 && d) {	/* then optionally set a value through the returned anchor */
+	vnaproperty_t **a;
+	LIB(a = vnaproperty_set_subtree(&reg[r], "%s", d));
+	if (a == NULL) vh_out("fail %s", vh_errclass(errno));
+	else {
+	    if (vh_ntok >= 5) {
+		char *d2 = vh_parse_hexbytes(vh_tok[4]);
+		int rc;
+		LIB(rc = vnaproperty_set(a, "%s", d2));
+		free(d2);
+		res_int(rc);
+	    } else
+		vh_out("ok 0");
+	}
+    } else if (strcmp(op, "copy") == 0) {		/* pt <dst> copy <src> */
+	int s = (int)vh_parse_long(vh_tok[3]);
+	int rc;
+	if (s < 0 || s >= NREG) { free(d); return -1; }
+	LIB(rc = vnaproperty_copy(&reg[r], reg[s]));
+	res_int(rc);
+    } else if (strcmp(op, "quote_key") == 0 && d) {
+	char *q;
+	LIB(q = vnaproperty_quote_key(d));
+	if (q == NULL) vh_out("fail %s", vh_errclass(errno));
+	else { vh_out("ok"); vh_out_hexbytes(q); LIB(free(q)); }
+    } else if (strcmp(op, "digest") == 0) {
+	vh_out("ok ");
+	LIB(walk(reg[r]));
+    } else if (strcmp(op, "export") == 0) {
+	char *buf = NULL;
+	size_t len = 0;
+	FILE *fp = open_memstream(&buf, &len);
+	int rc;
+	LIB(rc = vnaproperty_export_yaml_to_file(reg[r], fp, "-", vh_error_fn, NULL));
+	fclose(fp);
+	if (rc == -1) vh_out("fail %s cb=%d/%d", vh_errclass(errno), vh_cb_errors, vh_cb_warnings);
+	else { vh_out("ok cb=%d/%d", vh_cb_errors, vh_cb_warnings); vh_out_hexbytes(buf); }
+	free(buf);
+    } else if (strcmp(op, "import") == 0 && d) {
+	int rc;
+	LIB(rc = vnaproperty_import_yaml_from_string(&reg[r], d, vh_error_fn, NULL));
+	if (rc == -1) vh_out("fail %s cb=%d/%d", vh_errclass(errno), vh_cb_errors, vh_cb_warnings);
+	else vh_out("ok cb=%d/%d", vh_cb_errors, vh_cb_warnings);
+    } else if (strcmp(op, "free") == 0) {
+	LIB(vnaproperty_delete(&reg[r], "."));
+	vh_out("ok");
+    } else if (strcmp(op, "live") == 0) {	/* allocations made by the library that are still live */
+	vh_out("ok live=%ld", vh_live_count());
+    } else {
+	free(d);
+	return -1;
+    }
+    free(d);
+    return 0;
+}
